@@ -14,7 +14,8 @@ import (
 var poolTiny = []string{"a", "b", "ab", "ba", "c"}
 
 var poolSyntax = []string{"- x", "a-b", "* y", "#h", " x", "x ", "  ", "+", "-", "*", "a\tb", "\tx", "a\rb", "- ", "x - y", "+ z",
-	"a  b", "-x", "# h", "a#", "   lead3", "trail3   ", "\t", "-- a", "* * *", "1. a", "> q", "[x](y)", "`c`", "100%", "%s %d", "%[1]q"}
+	"a  b", "-x", "# h", "a#", "   lead3", "trail3   ", "\t", "-- a", "* * *", "1. a", "> q", "[x](y)", "`c`", "100%", "%s %d", "%[1]q",
+	"--", "- -", "---", "**", "***", "___", "_ _ _", "C#", "#", "##", "# #", "#include", "a #", "=", "==="}
 
 var poolUnicode = []string{"日本語", "é", "é", "‮RTL", "a\u0085b", "a b", "\ufeffb", "😀", "ß", "Ω≈ç√", " ", "a　b",
 	"ｆｕｌｌ", "́", "​", "한글", "🇯🇵", "a\ufffdb", "\ufffd", "a\ufeff"}
@@ -443,4 +444,11 @@ func genWideRepeat() *rapid.Generator[model.Forest] {
 		}
 		return f
 	})
+}
+
+// maybeNoGap leaves out the optional blank after the bullet on some lines, one time in four ("-name", "*\tname").
+func maybeNoGap(t *rapid.T, sp *model.Spelling) {
+	if rapid.IntRange(0, 3).Draw(t, "noGap") == 0 {
+		sp.NoGap = rapid.SliceOfN(rapid.Bool(), 1, 4).Draw(t, "noGapPattern")
+	}
 }
